@@ -4,22 +4,23 @@ P/L (unbounded, maintained separately): the four kernels emas._ema_adjusted / _e
 N_k/D_k recursion + carry-forward + null-until-first-valid, L-ema (recursion == closed form).
 B (bounded, this module): run-time contracts on the glue  emas.ema, emas.ema_grouped, GroupBy.ema  taken from the property statement:
    ensures  (valid row)    out == sum(w_s x_s) / sum(w_s) over the valid observations s of the same group up to the row,
-                           w_s = (1-alpha) ** (number of mask-selected rows of the group after s up to the row - null-valued or not), or 0.5 ** ((t - t_s) / halflife)
+                           w_s = (1-alpha) ** (number of rows of the group after s up to the row - valid or not), or 0.5 ** ((t - t_s) / halflife)
             (invalid row)  null value or masked: out == the group's previous output (bit-identical); null until the group's first valid row
             (null key)     the row belongs to no group: null output (input layout) / not present (group-sorted layout)
             (labels)       input layout: the input index; group-sorted layout: (group label, input label), original order within a group
             (halflife)     halflife h (no times) hands alpha == 1 - 2**(-1/h) to the kernel (captured by the kernel's wrapper) for real h;
                            halflife given as str / Timedelta with times reaches the kernel in ns, times in ns for every unit / tz
             (independence) rewriting the rows of the other groups (values, validity) leaves a group's outputs bit-identical
-            (ungrouped)    per group: grouped output == emas.ema of the group's own series (its mask-selected rows) from its first valid observation on
+            (ungrouped)    per group: grouped output == emas.ema of the group's own series (invalid rows as nulls) from its first valid observation on
             (frame)        values / times / mask are not modified
  + kernel-precondition monitors and the same closed form as a postcondition on the four kernels (localises a fault: kernel or glue).
-"Rows elapsed": the statement says "group rows", not "valid rows"; emas._ema_adjusted multiplies the residuals by (1-alpha) on EVERY row,
-null-valued or not (pandas ignore_na=False), and so does _ema_grouped for every row of the group. Rows excluded by `mask` are the one open
-point of the wording: C05 (a mask is the same as filtering the rows first) decides it - a masked-out row is not a row of the group, it
-only receives the group's previous output and does NOT count as elapsed (commit 2bda253 made the kernel agree). So: elapsed = rows of
-the same group that the mask selects, whether their value is null or not; null-key rows are rows of no group and do not count.
-With times the weight depends on the timestamps only, so the question does not arise.
+"Rows elapsed": the statement says "group rows", not "valid rows", and it names null-valued and masked rows together as the invalid rows that
+"repeat the group's previous output" - both are rows of the group. emas._ema_adjusted multiplies the residuals by (1-alpha) on EVERY row
+(valid or not), _ema_grouped on every row of the group with a non-null key, masked-out or not (pandas ignore_na=False). The oracle uses
+that reading for every entry point: elapsed = all rows of the same group after s up to the row, valid or not; null-key rows are rows of
+no group and do not count. (The other reading - a masked-out row is "not there" and does not advance the decay, i.e. mask == filtering
+first - was tried in /repo and withdrawn; this check would report it under the "valid row" clause.) With times the weight depends on the
+timestamps only, so the question does not arise.
 Oracle: the closed form, pure Python; exact rationals (fractions.Fraction) for row-count decay, floats for time decay; rtol 1e-9.
 """
 import itertools, io, contextlib, math
@@ -43,9 +44,9 @@ INDEX_KINDS = ("none", "rot", "dup", "str")
 KEY_KINDS = ("str", "float", "int", "cat", "two")
 SCOPE = {"quick": "GroupBy.ema / ema_grouped / ema on: (A) keys over {null,a,b}^n, n<=4 exhaustive, x every invalid-row pattern (2^n) x realisation of invalid rows {null value, masked, mixed null/masked/both} x float64 x "
                   "both layouts x alpha in {0.1,0.5,1} and halflife in {0.5,1,2.5,7/3} for n<=3, {alpha 0.5, halflife 7/3} for n=4, with the ungrouped and independence relations; (B) value dtypes {float32,int64,int32} n<=3; "
-                  "(C) containers: Series with rotated/duplicate/string index (mask and times as Series of the same index), two-column DataFrame/dict, n<=3; (D) key kinds {float NaN-null, int (3 groups), categorical with unused category, two keys} x sort on/off n<=3; "
-                  "(E) times: 14 kinds {ns,us,ms,s arrays, DatetimeIndex ns/us, tz-aware ns/us, Series (tz-aware), pre-1970 ns/us, first row at epoch 0, straddling 1970} x halflife as str/Timedelta (also timedelta64 and a second str for ns/epoch0), n<=3; "
-                  "(F) ema_grouped directly with codes {-1,0,1}, ngroups=3 (an empty group), code dtypes int8/int32/int64, untimed/ns/epoch0, n<=3; (G) ungrouped ema, every null pattern n<=5 x 4 dtypes x alpha/halflife/7 time kinds; seeded random cases up to 24 rows; 2 long series (300 rows)",
+                  "(C) containers: Series with rotated/duplicate/string index (mask and times as Series of the same index), two-column DataFrame/dict, n<=3 (n=3: masked / mixed realisations only); (D) key kinds {float NaN-null, int (3 groups), categorical with unused category, two keys} x sort on/off n<=3; "
+                  "(E) times: 14 kinds {ns,us,ms,s arrays, DatetimeIndex ns/us, tz-aware ns/us, Series (tz-aware), pre-1970 ns/us, first row at epoch 0, straddling 1970} x halflife as str/Timedelta (also timedelta64 and a second str for ns/epoch0), n<=3 (n<=2 for s, DatetimeIndex us, tz-aware us, tz-aware Series, pre-1970 us, straddling); "
+                  "(F) ema_grouped directly with codes {-1,0,1}, ngroups=3 (an empty group), code dtypes int64 (n<=3) and int8/int32 (n<=2), untimed/ns/epoch0; (G) ungrouped ema, every null pattern n<=5 x 4 dtypes x alpha/halflife/7 time kinds; seeded random cases up to 24 rows; 2 long series (300 rows)",
          "thorough": "as quick with (A) n<=5 exhaustive ({alpha 0.5, halflife 2.5, 7/3} for n>=4) and n=6 with the first label fixed, <=2 invalid rows or a leading invalid run, mixed realisation; (B)-(F) n<=4; (G) n<=7; two more containers; random cases up to 64 rows"}
 RULE = "a case = (keys, invalid-row pattern, realisation, value dtype, container/index kind, key kind, sort, time kind, entry); each case is run with every parameter of its family and both layouts; distinct = distinct canonical JSON; non-trivial = two or more labels, or a null key, or an invalid row"
 ASSUMPTIONS = ["A-real: float results compared with relative tolerance 1e-9 against exact rational arithmetic (row-count decay) / float closed form (time decay)", "A-exp: libm exp/log/pow accurate to a few ulp",
@@ -195,7 +196,7 @@ def _stream_c(tier):
         for cont, ikind in [("series", "rot"), ("series", "dup"), ("series", "str"), ("frame", "rot"), ("dict", "none")] + ([("series", "none"), ("frame", "str")] if tier == "thorough" else []):
             for keys in itertools.product([None, 0, 1], repeat=n):
                 for pat in _inv_patterns(n):
-                    for real in _reals(pat): yield _base(keys, pat, real, cont=cont, ikind=ikind, pset="two", rel=(n <= 2))
+                    for real in (_reals(pat) if n <= 2 or tier == "thorough" else _reals(pat)[1:]): yield _base(keys, pat, real, cont=cont, ikind=ikind, pset="two", rel=(n <= 2))
 
 
 def _stream_d(tier):
@@ -211,7 +212,7 @@ def _stream_e(tier):
     big = tier == "thorough"
     for n in range(1, 4 + 1):
         for tkind in TIME_KINDS:
-            if n > 3 and not big: continue
+            if not big and (n > 3 or (n > 2 and tkind in ("s", "index_us", "tz_us", "series_tz", "pre1970_us", "straddle"))): continue
             cont, ikind = (("series", "rot") if "series" in tkind else ("array", "none"))
             for keys in itertools.product([None, 0, 1], repeat=n):
                 for pat in _inv_patterns(n):
@@ -223,6 +224,7 @@ def _stream_f(tier):
     N = 4 if tier == "thorough" else 3
     for n in range(0, N + 1):
         for cdt in ("int64", "int8", "int32"):
+            if cdt != "int64" and n > 2 and tier != "thorough": continue
             for time in (None, "ns", "epoch0"):
                 for keys in itertools.product([None, 0, 1], repeat=n):
                     for pat in _inv_patterns(n):
@@ -408,11 +410,11 @@ def _check_groupby(sess, case):
     ok, gb = _call(sess, "GroupBy.ema", "constructor", lambda: GroupBy(k, sort=case["sort"]))
     if not ok: return 1
     valid_eff = {nm: [not masked[i] and vals[i] is not None for i in range(n)] for nm, _, _, vals in cols}
-    groups_present = list(dict.fromkeys(l for l in labs if l is not None)); counted = [not x for x in masked]
+    groups_present = list(dict.fromkeys(l for l in labs if l is not None))
     layouts = (False,) if case.get("long") else (False, True)
     for pi, p in enumerate(_params(case)):
         kw, alpha, hl_ns = _kw(p)
-        exp = {nm: spec_ema(labs, vals, valid_eff[nm], alpha=alpha, times=tns, halflife=hl_ns, exact=not case.get("long"), counted=counted) for nm, _, _, vals in cols}
+        exp = {nm: spec_ema(labs, vals, valid_eff[nm], alpha=alpha, times=tns, halflife=hl_ns, exact=not case.get("long")) for nm, _, _, vals in cols}
         first_out = None
         for ibg in layouts:
             c = dict(case, param=p, index_by_groups=ibg); sess.current_case = c; calls += 1
@@ -455,9 +457,10 @@ def _check_groupby(sess, case):
         base = first_out[1]; nm, vk, arr, vals = cols[0]; ve = valid_eff[nm]
         # (ungrouped) per group: grouped output == ema() of the group's own series from its first valid observation on
         for g in groups_present:
-            rows_g = [r for r in range(n) if labs[r] == g and not masked[r]]            # the group's own series: its rows selected by the mask (null values stay in it)
+            rows_g = [r for r in range(n) if labs[r] == g]
             if not any(ve[r] for r in rows_g): continue
-            sub = arr[rows_g]
+            if vk not in FLOATS and any(not ve[r] for r in rows_g): continue             # an int series cannot carry the masked rows as nulls
+            sub = np.array([arr[r] if ve[r] else np.nan for r in rows_g], dtype=arr.dtype) if vk in FLOATS else arr[rows_g]      # the same series: the group's rows, invalid ones as nulls
             subt = None if not timed else np.array([tns[r] for r in rows_g], dtype=np.int64).view("M8[ns]")
             sess.current_case = dict(case, param=p, relation="ungrouped", group=str(g)); calls += 1
             ok, ug = _call(sess, "emas.ema", "ungrouped counterpart", lambda: emas.ema(sub, times=subt, **kw))
@@ -503,7 +506,7 @@ def _check_ema_grouped(sess, case):
     ve = [not masked[i] and vals[i] is not None for i in range(n)]
     for p in _params(case):
         kw, alpha, hl_ns = _kw(p)
-        exp = spec_ema(groups, vals, ve, alpha=alpha, times=tns, halflife=hl_ns, counted=[not x for x in masked])
+        exp = spec_ema(groups, vals, ve, alpha=alpha, times=tns, halflife=hl_ns)
         sess.current_case = dict(case, param=p); calls += 1
         objs = [arr, times, mask, codes]; snap = _snapshot(objs); sess._c10_seen.clear()
         ok, got = _call(sess, "emas.ema_grouped", "call", lambda: emas.ema_grouped(codes, ngroups, values, times=times, mask=mask, **kw))
@@ -574,7 +577,7 @@ def install(sess):
         n = len(vals)
         if n > 80: return None
         ve = [vals[i] is not None and (mask is None or bool(mask[i])) for i in range(n)]
-        exp = spec_ema(groups, vals, ve, alpha=alpha, times=None if times is None else [int(t) for t in times], halflife=halflife, exact=False, counted=None if mask is None else [bool(x) for x in mask])
+        exp = spec_ema(groups, vals, ve, alpha=alpha, times=None if times is None else [int(t) for t in times], halflife=halflife, exact=False)
         if len(out) != n: return "kernel: one output per row"
         for i in range(n):
             if start is not None and (not start or i < start[0]): continue
